@@ -85,6 +85,65 @@ for a, b in (("ACG", "ANR"), ("AC", "YCW"), ("GAT", "GNT"), ("TTA", "KTM"), ("C"
                     "dictionary matrix over two alphabets", {"seq1": a, "seq2": b, "gap": gap, "terminal_penalty": terminal, "local": local},
                     lambda a=a, b=b, gap=gap, terminal=terminal, local=local: dict_matrix_contract(a, b, gap, terminal, local))
 
+def matrix_contract(name, m, ref):
+    """SubstitutionMatrix accessors against the plain score table `ref` (rows: alphabet 1), transpose() included"""
+    a1, a2 = m.get_alphabet1(), m.get_alphabet2()
+    if m.score_matrix().tolist() != ref.tolist() or m.shape != ref.shape:
+        return "score_matrix() differs from the scores the matrix was built from"
+    for i, x in enumerate(a1.get_symbols()):
+        for j, y in enumerate(a2.get_symbols()):
+            if m.get_score(x, y) != ref[i, j] or m.get_score_by_code(i, j) != ref[i, j]:
+                return f"get_score({x!r}, {y!r}) = {m.get_score(x, y)}, table says {ref[i, j]}"
+    t = m.transpose()
+    if t.get_alphabet1() != a2 or t.get_alphabet2() != a1:
+        return "transpose() does not swap the alphabets"
+    if t.score_matrix().tolist() != ref.T.tolist():
+        return f"transpose().score_matrix() = {t.score_matrix().tolist()}, expected {ref.T.tolist()}"
+    for i, x in enumerate(a1.get_symbols()):
+        for j, y in enumerate(a2.get_symbols()):
+            if t.get_score(y, x) != ref[i, j]:
+                return f"transpose().get_score({y!r}, {x!r}) = {t.get_score(y, x)}, but get_score({x!r}, {y!r}) = {ref[i, j]}"
+    if t.transpose() != m or t.transpose().score_matrix().tolist() != ref.tolist():
+        return "transpose() twice is not the identity"
+    if a1 == a2 and m.is_symmetric() != bool((ref == ref.T).all()):
+        return f"is_symmetric() = {m.is_symmetric()}"
+    if m.score_matrix().tolist() != ref.tolist():
+        return "transpose() changed the matrix it was called on"
+    return None
+
+
+def swapped_roles(a, b, amb, m, ref, gap, terminal, local):
+    """the sequences given in the opposite order with the transposed matrix have the same optimum"""
+    s1, s2 = seq.NucleotideSequence(a), seq.NucleotideSequence(b, ambiguous=amb)
+    exp = brute(s1.code, s2.code, ref, gap, terminal, local)
+    alis = align.align_optimal(s2, s1, m.transpose(), gap_penalty=gap, terminal_penalty=terminal, local=local, max_number=20)
+    for ali in alis:
+        if int(ali.score) != int(exp):
+            return f"align_optimal(seq2, seq1, M.transpose()) reports {ali.score}, the maximum over all alignments under M is {exp}"
+        tr = [(int(y), int(x)) for x, y in ali.trace]
+        if tr and score_of(tr, s1.code, s2.code, ref, gap, terminal if not local else True, len(a), len(b)) != int(ali.score):
+            return f"alignment {tr} re-scored under M differs from the reported {ali.score}"
+    return None
+
+
+_mrng = np.random.default_rng(8)
+RECT = _mrng.integers(-5, 6, size=(4, len(A2))).astype(np.int32)
+RECT_MATRIX = align.SubstitutionMatrix(A1, A2, RECT)
+ASYM = MATRICES["asymmetric"]
+for name, m, ref in (("asymmetric 4x4", ASYM, ASYM.score_matrix().copy()), ("dictionary 4x15", DICT_MATRIX, DICT_REF), ("random 4x15", RECT_MATRIX, RECT),
+                     ("random 15x4", align.SubstitutionMatrix(A2, A1, RECT.T.copy()), RECT.T.copy()), ("+2/-3", MATRICES["+2/-3"], MATRICES["+2/-3"].score_matrix().copy())):
+    R.check("substitution matrix accessors and transpose() agree with the score table", f"matrix {name}", {"matrix": name},
+            lambda name=name, m=m, ref=ref: matrix_contract(name, m, ref))
+for a, b in (("ACG", "ANR"), ("AC", "YCW"), ("GAT", "GNT"), ("CT", "TC"), ("CCT", "TTC")):
+    for gap in (-1, (-3, -1)):
+        for terminal, local in ((True, False), (False, False), (True, True)):
+            for name, m, ref, amb in (("random 4x15", RECT_MATRIX, RECT, True), ("asymmetric 4x4", ASYM, ASYM.score_matrix(), False)):
+                if not amb and set(b) - set("ACGT"):
+                    continue
+                R.check("align_optimal: reported score == maximum over all alignments; returned alignments valid, honestly scored, distinct",
+                        "sequences swapped, matrix transposed", {"seq1": a, "seq2": b, "matrix": name, "gap": gap, "terminal_penalty": terminal, "local": local},
+                        lambda a=a, b=b, amb=amb, m=m, ref=ref, gap=gap, terminal=terminal, local=local: swapped_roles(a, b, amb, m, ref, gap, terminal, local))
+
 words = ["".join(w) for n in (1, 2, 3) for w in itertools.product("ACG", repeat=n)]
 if not R.thorough:
     words = words[::3] + ["AAC", "CAA", "ACA"]
